@@ -8,6 +8,7 @@ import MocModel.Codec
 import MocModel.Valid
 import MocModel.Gen.Serialize
 import MocModel.Gen.Gate
+import MocModel.Bip340
 
 namespace Moc
 
@@ -95,6 +96,19 @@ def verify (hashHex : String) (o : SigOracle) (e : Event) : VerifyRes :=
         else match hexDecode e.sig.toList with
           | none => .error
           | some _ => if !o.sigParses then .error else .ok o.verifies
+
+/-- the signature library's three answers, computed by the Lean model of the library (`Bip340.verifyLib`: BIP-340, with btcec's missing `s < n` check) from the
+    event's own fields: what `schnorr.ParsePubKey`, `schnorr.ParseSignature` and `sig.Verify(idBin, pubkey)` say -/
+def sigOracleOf (e : Event) : SigOracle :=
+  match hexDecode e.pubkey.toList, hexDecode e.id.toList with
+  | some pk, some idBin =>
+    let v := Bip340.verifyLib pk idBin ((hexDecode e.sig.toList).getD [])
+    { pubkeyParses := v.pubkeyParses, sigParses := v.sigParses, verifies := v.verifies }
+  | _, _ => { pubkeyParses := false, sigParses := false, verifies := false }
+
+/-- `Event.Verify` with nothing handed in: the hash by the Lean SHA-256, the signature by the Lean BIP-340 -/
+def verifyFull (e : Event) : VerifyRes :=
+  verify (Sha256.hexHash (String.ofList (serializeChars e))) (sigOracleOf e) e
 
 /-! ### the gate -/
 
